@@ -512,19 +512,16 @@ pub fn glue_string(e: &EnumSpec, name: &str, inst: &str, src: &mut Src, _prop: &
         }
     }
     // expected rendering of placeholder variants: std's format! on the identical literal
+    // (the printed literal is prefix + name: a placeholder may also arrive through the prefix)
     let ph: Vec<&VariantSpec> = e
         .variants
         .iter()
-        .filter(|v| {
-            !v.transparent()
-                && v.kind != Kind::Unit
-                && v.to_string_lit().map(|l| !crate::model::placeholders(l).is_empty()).unwrap_or(false)
-        })
+        .filter(|v| !v.transparent() && !v.disabled() && !(v.is_default() && v.to_string_lit().is_none()) && v.kind != Kind::Unit && !crate::model::placeholders(&crate::model::canonical(e, v)).is_empty())
         .collect();
     if !ph.is_empty() && e.derives("Display") {
         src.push("    fn expect_fmt(&self) -> Option<String> { match self {");
         for v in &ph {
-            let l = format!("{}{}", e.prefix().unwrap_or(""), v.to_string_lit().unwrap());
+            let l = crate::model::canonical(e, v);
             let args: Vec<String> = if v.kind == Kind::Named {
                 used_named(&l, v).iter().map(|&i| format!("{} = f{}", v.fields[i].name.as_ref().unwrap(), i)).collect()
             } else {
